@@ -394,7 +394,35 @@ func lowerFont(i int, f FontSpec, l Layout) []symObj {
 		}
 		out = append(out, symObj{fmt.Sprintf("tu:%d", i), &Stream{Data: ToUnicodeCMap(f.Map, width), Chain: chain}})
 	}
+	encDict := func(base string) any {
+		d := Dict{{"Type", Name("Encoding")}}
+		if base != "" {
+			d = d.with("BaseEncoding", Name(base))
+		}
+		if len(f.Diff) > 0 {
+			// §9.6.6.1: a code followed by the names for that and the following codes
+			a := Arr{}
+			for k, e := range f.Diff {
+				if k == 0 || f.Diff[k-1].Code+1 != e.Code {
+					a = append(a, Int(e.Code))
+				}
+				a = append(a, Name(e.Glyph))
+			}
+			d = d.with("Differences", a)
+		}
+		if l.CIDInfoInd {
+			out = append(out, symObj{fmt.Sprintf("enc:%d", i), d})
+			return Ref(fmt.Sprintf("enc:%d", i))
+		}
+		return d
+	}
 	switch f.Kind {
+	case "t1dstd":
+		out = append(out, symObj{id, t1("").with("Encoding", encDict(""))})
+	case "t1dwin":
+		out = append(out, symObj{id, t1("").with("Encoding", encDict("WinAnsiEncoding"))})
+	case "t1dmac":
+		out = append(out, symObj{id, t1("").with("Encoding", encDict("MacRomanEncoding"))})
 	case "t1std":
 		out = append(out, symObj{id, t1("")})
 	case "t1win":
@@ -425,9 +453,14 @@ func lowerFont(i int, f FontSpec, l Layout) []symObj {
 		out = append(out, symObj{id, d})
 	case "type0":
 		out = append(out, symObj{fmt.Sprintf("fd:%d", i), descriptor(f.Base, 4)})
+		var sysInfo any = Dict{{"Registry", Str{B: []byte("Adobe")}}, {"Ordering", Str{B: []byte("Identity")}}, {"Supplement", Int(0)}}
+		if l.CIDInfoInd {
+			out = append(out, symObj{fmt.Sprintf("cidinfo:%d", i), sysInfo})
+			sysInfo = Ref(fmt.Sprintf("cidinfo:%d", i))
+		}
 		out = append(out, symObj{fmt.Sprintf("cid:%d", i), Dict{{"Type", Name("Font")}, {"Subtype", Name("CIDFontType2")},
 			{"BaseFont", Name(f.Base)},
-			{"CIDSystemInfo", Dict{{"Registry", Str{B: []byte("Adobe")}}, {"Ordering", Str{B: []byte("Identity")}}, {"Supplement", Int(0)}}},
+			{"CIDSystemInfo", sysInfo},
 			{"FontDescriptor", Ref(fmt.Sprintf("fd:%d", i))}, {"DW", Int(1000)}}})
 		tu(2)
 		out = append(out, symObj{id, Dict{{"Type", Name("Font")}, {"Subtype", Name("Type0")}, {"BaseFont", Name(f.Base)},
